@@ -316,12 +316,16 @@ package shmipc
 
 // --- handshake phase (blocking reads on the raw connection) ---
 //@ func blockReadFull
-//@   ensures  result == nil ==> readSize == len(data)
-//@   loop 0 invariant 0 <= readSize && readSize <= len(data)
+//@   ghost var got int = 0
+//@   at call unix.Read#0 ghost got := got + ite(r1 == nil, r0, 0)
+//@   ensures  result == nil ==> readSize == len(data) && got == len(data)
+//@   loop 0 invariant 0 <= readSize && readSize <= len(data) && readSize == got
 
 //@ func blockWriteFull
-//@   ensures  result == nil ==> written == len(data)
-//@   loop 0 invariant 0 <= written && written <= len(data)
+//@   ghost var sent int = 0
+//@   at call unix.Write#0 ghost sent := sent + ite(r1 == nil, r0, 0)
+//@   ensures  result == nil ==> written == len(data) && sent == len(data)
+//@   loop 0 invariant 0 <= written && written <= len(data) && written == sent
 //@   modifies nothing
 
 //@ func blockReadEventHeader
@@ -435,8 +439,12 @@ package shmipc
 //@   preserves wfConn(c)
 //@   loop 0 invariant wfConn(c) && c.callback != nil
 
+// ghost sent: bytes the kernel accepted so far; every syscall submits data[written:], so written == sent
+// means data[0:written) has been submitted exactly once and in order
 //@ func (*connEventHandler).write
-//@   ensures  r0 == nil ==> written == len(data)
-//@   loop 0 invariant 0 <= written && written <= size && size == len(data)
+//@   ghost var sent int = 0
+//@   at call unix.Syscall#0 ghost sent := sent + ite(r2 == 0, r0, 0)
+//@   ensures  r0 == nil ==> written == len(data) && sent == len(data)
+//@   loop 0 invariant 0 <= written && written <= size && size == len(data) && written == sent
 //@   modifies nothing
 
